@@ -1012,13 +1012,27 @@ fn lists_for(c: Class, r: &mut Rng, passes: &[&'static str], n_random: usize, th
 /// * `ccp` used to panic on the empty `while_break` blocks (fixed: "fix: ccp skips blocks without terminator");
 ///   it is still only ever run after `simplify-cfg`.
 ///
-/// The generated hook values therefore put `simplify-cfg` directly before each `mem2reg` and `ccp`.
+/// * `sroa` splits a const-demoted aggregate `local { u64 } __const = const { u64 } { u64 77 }` into IMMUTABLE scalar
+///   locals WITH initializers (`local u64 __const0 = const u64 77`). Asm generation maps such a local to
+///   `Storage::Const` / a data-section word and compiles `get_local` to the VALUE (`MOVI r, 77` / `LoadDataId`), so a
+///   surviving `load` of it reads memory at address 77 (sway-core asm_generation/fuel/functions.rs locals fold +
+///   fuel_asm_builder.rs compile_get_local "get local constant"). Only `mem2reg` removes those loads (it replaces
+///   the load by the initializer); `compile_ast_to_ir_to_asm` runs `sroa` exclusively as `SROA_NAME, MEM2REG_NAME`
+///   (Opt1 FuelVM tail) and never in Opt0. Nothing may come between the two: `memcpyopt` turns the load/store pair
+///   into a `mem_copy_val` of the scalar local, which `mem2reg` cannot promote any more.
+///   Replay of the unguarded shape: corpus/c03/sroa_const_local_load.sw with `inline,sroa` (test reverts).
+///
+/// The generated hook values therefore put `simplify-cfg` directly before each `mem2reg`, `ccp` and `sroa`, and
+/// `mem2reg` directly after each `sroa`.
 fn legalise(list: &str) -> String {
     let fix = |part: &str| -> String {
         let mut out: Vec<&str> = vec![];
         for p in part.split(',') {
-            if (p == "ccp" || p == "mem2reg") && out.last() != Some(&"simplify-cfg") { out.push("simplify-cfg"); }
+            if p == "mem2reg" && out.last() == Some(&"mem2reg") { continue; }
+            let after_sroa = p == "mem2reg" && out.last() == Some(&"sroa");
+            if (p == "ccp" || p == "mem2reg" || p == "sroa") && !after_sroa && out.last() != Some(&"simplify-cfg") { out.push("simplify-cfg"); }
             out.push(p);
+            if p == "sroa" { out.push("mem2reg"); }
         }
         out.join(",")
     };
